@@ -476,6 +476,34 @@ async fn run_honest_tree<TC: Configuration>(cc: &CaseCtx, case: &HistCase, rng: 
                 p.existence_of_past_marker_proofs.push(honest.update_proofs[0].existence_proof.clone());
                 j.judge(l, "H5-surplus-past-marker", p, hp, false, "-");
             }
+            // H5b: the two halves of a marker list with UNEQUAL lengths (only the tree proof or only the VRF proof
+            // removed / added): must be refused, never index out of bounds
+            {
+                if !honest.past_marker_vrf_proofs.is_empty() {
+                    let mut p = honest.clone();
+                    p.existence_of_past_marker_proofs.pop();
+                    j.judge(l, "H5-past-marker-tree-proof-removed-vrf-kept", p, hp, false, "-");
+                    let mut p = honest.clone();
+                    p.past_marker_vrf_proofs.pop();
+                    j.judge(l, "H5-past-marker-vrf-removed-tree-proof-kept", p, hp, false, "-");
+                }
+                if !honest.future_marker_vrf_proofs.is_empty() {
+                    let mut p = honest.clone();
+                    p.non_existence_of_future_marker_proofs.pop();
+                    j.judge(l, "H5-future-marker-tree-proof-removed-vrf-kept", p, hp, false, "-");
+                    let mut p = honest.clone();
+                    p.future_marker_vrf_proofs.pop();
+                    j.judge(l, "H5-future-marker-vrf-removed-tree-proof-kept", p, hp, false, "-");
+                }
+                let mut p = honest.clone();
+                p.existence_of_past_marker_proofs.push(honest.update_proofs[0].existence_proof.clone());
+                j.judge(l, "H5-surplus-past-marker-tree-proof-only", p, hp, false, "-");
+                if let Some(nm) = honest.non_existence_of_future_marker_proofs.first() {
+                    let mut p = honest.clone();
+                    p.non_existence_of_future_marker_proofs.push(nm.clone());
+                    j.judge(l, "H5-surplus-future-marker-tree-proof-only", p, hp, false, "-");
+                }
+            }
             // transplant: another label's whole proof
             if labels.len() >= 2 {
                 let other = labels.iter().find(|o| *o != label).unwrap();
